@@ -375,3 +375,11 @@ def bounded_integer_containers(which):
         well = det.Detector(dark_current=0.0, read_noise=0.0, bias=0.0, fwc=fwc3, conversion_gain=g3, bits=32, exposure_time=1.0)
         dnw = well.expose(np.full((2, 3), fwc3 * 40.0 + 1e4))
         check('full-well-clips-before-the-adc', bool((dnw == int(fwc3 / g3)).all()))
+        # the same with a full well that is not a whole number of electrons and the bias given as a python int or a float (what the
+        # caller typed must not matter): noise sources off, so the reading is the clipped, gain-scaled signal floor(fwc / gain)
+        fwc4 = float(rng.integers(10, 2000)) + float(rng.choice([0.25, 0.5, 0.75]))
+        g4 = float(rng.choice([0.25, 0.5, 0.125]))
+        bias4 = [0, 100, 0.0, 100.0][int(rng.integers(0, 4))]
+        well4 = det.Detector(dark_current=0.0, read_noise=[0, 0.0][int(rng.integers(0, 2))], bias=bias4, fwc=fwc4, conversion_gain=g4, bits=32, exposure_time=1.0)
+        dn4 = well4.expose(np.full((2, 3), fwc4 * 40.0 + 1e4))
+        check('fractional-full-well-clips-to-fwc-over-gain', bool((dn4 == int(fwc4 / g4)).all()))
